@@ -22,6 +22,7 @@ def main(tier, seed):
     chk = Check("C17", tier, seed, technique="relational DSE: run with a scaler oracle returning symbolic s in [1e-3,1e3] vs run on s*f, s*grad f without scaler, real main.py/ScalarFunction with functional stubs; z3 decides equality of terms; plus the packaged unit scaler executed symbolically")
     jobs = [(T, dict(K=2, ls_mode="unit", ftarget=1, ftol="sym")), (T, dict(K=2, ls_mode="lean")), (T, dict(K=3, ls_mode="unit", maxcor=2))]
     jobs += [(T, dict(K=2, ls_mode="unit", jac="2-point")), (T, dict(K=1, ls_mode="unit", jac="none", ftarget=1))]
+    jobs.append((T, dict(K=2, ls_mode="unit", ftarget=1, ftol="sym", update_identity=1)))
     jobs.append(("harness.orch_rel:unit_scaler", dict(n=2)))
     if tier != "quick":
         jobs += [(T, dict(K=2, ls_mode="unit", jac="3-point")), (T, dict(K=2, ls_mode="unit", jac="cs")), (T, dict(K=3, ls_mode="unit", ftarget=1, ftol="sym", maxcor=1)), (T, dict(K=3, ls_mode="lean")), ("harness.orch_rel:unit_scaler", dict(n=3))]
